@@ -1005,6 +1005,13 @@ def m_flexible_member(L, rng):
         else:
             out.append("union c10_fu%d { %s };" % (k, " ".join(mem)))
             inner = "union c10_fu%d" % k
+    if rng.random() < 0.4:
+        # the array-element clause of the same paragraph
+        form = rng.choice(["%s c10_fa[2];", "typedef %s c10_fat[3];", "struct c10_fs { int c10_id; %s c10_m[2]; };",
+                           "void c10_fg(%s c10_p[]);", "extern %s c10_fe[];", "%s c10_f2[2][2];"])
+        out.append(form % inner)
+        k = blanks[0]
+        return L[:k] + out + L[k:], "flexible-array structure (through %d union level(s)) as array element: %s" % (depth, form % "T")
     mem = ["%s c10_m;" % inner] + ["int c10_t%d;" % j for j in range(rng.randrange(3))]
     if rng.random() < 0.5:
         rng.shuffle(mem)
@@ -1014,7 +1021,8 @@ def m_flexible_member(L, rng):
 
 
 MUTATORS = [
-    ("flexible-struct-member", m_flexible_member, [S("decl.c", "addmember", "struct member '%s' contains flexible array member")]),
+    ("flexible-struct-member", m_flexible_member, [S("decl.c", "addmember", "struct member '%s' contains flexible array member"),
+                                                   S("decl.c", "declarator", "array element contains flexible array member")]),
     ("non-lvalue-left-operand", m_nonlvalue_lhs, [S("expr.c", "assignexpr", "left side of assignment expression is not an lvalue"),
                                                   S("expr.c", "mkincdecexpr", "operand of '%s' operator must be an lvalue")]),
     ("variadic-too-few-args", m_variadic_too_few, [S("expr.c", "postfixexpr", "not enough arguments for function call")]),
@@ -1261,9 +1269,6 @@ def run(ck):
         "6.5.3.2p1 `&` applied to an object declared `register`; 6.7.6.3p4/p10 in a function DECLARATION that is not a definition: `void f(void b);`, `void f(int, void);` accepted "
         "(a definition is rejected: decl.c \"parameter of function definition has incomplete type\"); "
         "6.8.6.1p1 goto into the scope of a variably modified identifier",
-        "6.7.2.1p3, array-element clause: a structure with a flexible array member (or a union containing one) as the element "
-        "type of an array: `struct F { int n; int a[]; }; struct F fa[2];` accepted, and through it `struct S { struct F fa[2]; };` "
-        "(an array type never carries the flexible mark; Lean: example after flexible_propagates); gcc and clang reject",
         "6.3.2.1p1 assignment to a struct/union object that has a const-qualified member (`s1 = s2`) accepted",
         "6.7.2.2 `enum E : _Bool { A = 2 };` accepted (known finding C05 enum-bool-range; enum_value_accept_sound_counterexample)",
     ]
